@@ -68,10 +68,14 @@ auto beyond(std::size_t base, u32 arg) -> std::size_t
     case 0xFFFFFFFEU: return (SIZE_MAX >> 1) + 1; // 2^63: negative after a cast to ptrdiff_t
     case 0x80000000U: return SIZE_MAX >> 1;        // PTRDIFF_MAX
     case 0x7FFFFFFFU: return SIZE_MAX - 1;
+    case 0x7FFFFFF1U: return SIZE_MAX - 2; // base + value wraps to a small number
+    case 0x7FFFFFF2U: return SIZE_MAX - 3;
+    case 0x7FFFFFF3U: return SIZE_MAX - base + 1 > base ? SIZE_MAX - base + 1 : SIZE_MAX - 1; // base + value == 0 (mod 2^64)
+    case 0x7FFFFFF4U: return SIZE_MAX - 7;
     default: return base + arg;
     }
 }
-u32 const violating_args[] = {0, 1, 2, 3, 5, 8, 64, 255, 256, 1000, 65535, 65536, 0x7FFFFFFFU, 0x80000000U, 0xFFFFFFFEU, 0xFFFFFFFFU};
+u32 const violating_args[] = {0, 1, 2, 3, 5, 8, 64, 255, 256, 1000, 65535, 65536, 0x7FFFFFF1U, 0x7FFFFFF2U, 0x7FFFFFF3U, 0x7FFFFFF4U, 0x7FFFFFFFU, 0x80000000U, 0xFFFFFFFEU, 0xFFFFFFFFU};
 
 struct Entry {
     char const* name;
@@ -128,22 +132,47 @@ struct SVE {
         (void)c[a % static_cast<u32>(s)];
         return true;
     }
-    static bool front(int s, u32, bool bad)
+    static bool front(int s, u32 a, bool bad)
     {
         if (bad != (s == 0)) { return false; }
         V v;
         fill(v, s);
+        V const& c = v;
         ARM_SEQ(v);
-        (void)v.front();
+        if (a % 2 == 0) {
+            (void)v.front();
+        } else {
+            (void)c.front();
+        }
         return true;
     }
-    static bool back(int s, u32, bool bad)
+    static bool back(int s, u32 a, bool bad)
     {
         if (bad != (s == 0)) { return false; }
         V v;
         fill(v, s);
+        V const& c = v;
         ARM_SEQ(v);
-        (void)v.back();
+        if (a % 2 == 0) {
+            (void)v.back();
+        } else {
+            (void)c.back();
+        }
+        return true;
+    }
+    static bool move_insert(int s, u32 a, bool bad)
+    {
+        V v;
+        fill(v, s);
+        ARM_SEQ(v);
+        T src[12]{};
+        std::size_t room = 4 - static_cast<std::size_t>(s);
+        if (bad) {
+            auto n = std::min<std::size_t>(room + 1 + a % 7, 12);
+            v.move_insert(v.begin(), src, src + n);
+            return true;
+        }
+        v.move_insert(v.begin() + (a % static_cast<u32>(s + 1)), src, src + a % (room + 1));
         return true;
     }
     static bool pop_back(int s, u32, bool bad)
@@ -556,6 +585,32 @@ struct STRE {
         (void)c[a % (size_of(s) + 1)];
         return true;
     }
+    static bool replace_pos(int s, u32 a, bool bad)
+    {
+        // only the violating direction: the documented preconditions (pos < size(), pos + count < size()) also reject
+        // calls std::string accepts; that is C04's question.  pos > size() violates under every reading.
+        if (!bad) { return false; }
+        auto x = make(s);
+        S other(3, 'r');
+        ARM_STR(x);
+        auto pos = beyond(size_of(s) + 1, a);
+        switch ((a / 3) % 4) {
+        case 0: x.replace(pos, 1, other); break;
+        case 1: x.replace(pos, 1, "rr", 2); break; // (replace(pos,count,cstr) needs etl::strlen declared first: include-order dependent, left out)
+        case 2: x.replace(pos, 1, "rrr", 2); break;
+        default: x.replace(pos, 1, other, 0, 1); break;
+        }
+        return true;
+    }
+    static bool replace_pos2(int s, u32 a, bool bad)
+    {
+        if (!bad || s == 0) { return false; }
+        auto x = make(s);
+        S other(3, 'r');
+        ARM_STR(x);
+        x.replace(0, 1, other, beyond(4, a), 1); // pos2 > str.size()
+        return true;
+    }
 #undef ARM_STR
 };
 
@@ -638,7 +693,9 @@ struct SPN {
             // subspan(offset, count) with count > size - offset
             auto off = a % (n + 1);
             if (bad) {
-                auto cnt = (n - off) + 1 + (a / 7) % 5;
+                auto cnt = beyond((n - off) + 1, a / 7 % 2 == 0 ? a : (a / 7) % 5);
+                if (a >= 0x7FFFFFF0U) { cnt = beyond((n - off) + 1, a); }
+                if (cnt == etl::dynamic_extent) { cnt = SIZE_MAX - 1; } // dynamic_extent means "the rest": valid
                 (void)v.subspan(off, cnt);
                 return true;
             }
@@ -718,13 +775,17 @@ bool var_access(int s, u32 a, bool bad)
     if (bad == (want == s)) { return false; }
     V const& c   = v;
     g_unmodified = [&] { return static_cast<int>(v.index()) == s; };
-    auto form    = (a / 3) % 4;
+    auto form    = (a / 3) % 8;
     auto go      = [&]<std::size_t I>(etl::index_constant<I> ic) {
         switch (form) {
         case 0: (void)v[ic]; break;
         case 1: (void)c[ic]; break;
         case 2: (void)etl::unchecked_get<I>(v); break;
-        default: (void)etl::unchecked_get<I>(c); break;
+        case 3: (void)etl::unchecked_get<I>(c); break;
+        case 4: (void)std::move(v)[ic]; break;
+        case 5: (void)std::move(c)[ic]; break;
+        case 6: (void)etl::unchecked_get<I>(std::move(v)); break;
+        default: (void)etl::unchecked_get<I>(std::move(c)); break;
         }
     };
     if (want == 0) {
@@ -941,6 +1002,32 @@ bool linalg_extents(int s, u32 a, bool bad)
     }
     return true;
 }
+bool linalg_matvec(int s, u32 a, bool bad)
+{
+    // non-square shapes: rows r, cols c, x has c elements, y has r elements
+    int as[16], xs[8] = {1, 2, 3, 4, 5, 6, 7, 8}, ys[8] = {0};
+    for (int i = 0; i < 16; ++i) { as[i] = i; }
+    std::vector<int> before(ys, ys + 8);
+    g_unmodified = [&] { return std::vector<int>(ys, ys + 8) == before; };
+    int r = 1 + static_cast<int>(a % 3);
+    int c = 1 + static_cast<int>((a / 3) % 4);
+    if (r == c) { c = r + 1; }
+    using Mat = etl::mdspan<int, etl::dextents<int, 2>>;
+    using Vec = etl::mdspan<int, etl::dextents<int, 1>>;
+    int xn = c, yn = r;
+    if (bad) {
+        switch (s) {
+        case 0: xn = r; yn = c; break; // transposed lengths
+        case 1: xn = c + 1; break;     // x too long
+        case 2: yn = r + 1; break;     // y too long
+        default: xn = c - 1 > 0 ? c - 1 : c + 2; break;
+        }
+    } else if (s != 0) {
+        return false;
+    }
+    etl::linalg::matrix_vector_product(Mat(as, r, c), Vec(xs, xn), Vec(ys, yn));
+    return true;
+}
 #if defined(TETL_ENABLE_CONTRACT_CHECKS_SAFE)
 bool array_index(int s, u32 a, bool bad)
 {
@@ -970,6 +1057,7 @@ using TCM = lt::TCM;
         Entry{"static_vector<" tag ",4>::insert/emplace(pos,x)", "static_vector.hpp", 5, &SVE<T>::insert_one},           \
         Entry{"static_vector<" tag ",4>::insert(pos,n,x)", "static_vector.hpp", 5, &SVE<T>::insert_n},                   \
         Entry{"static_vector<" tag ",4>::insert(pos,first,last)", "static_vector.hpp", 5, &SVE<T>::insert_range},        \
+        Entry{"static_vector<" tag ",4>::move_insert(pos,first,last)", "static_vector.hpp", 5, &SVE<T>::move_insert},    \
         Entry{"static_vector<" tag ",4>::insert(end()+1,x)", "static_vector.hpp", 5, &SVE<T>::insert_pos_past_end},      \
         Entry{"static_vector<" tag ",4>::erase(end())", "static_vector.hpp", 5, &SVE<T>::erase_end},                     \
         Entry{"static_vector<" tag ",4>::erase(first>last)", "static_vector.hpp", 5, &SVE<T>::erase_reversed},           \
@@ -994,7 +1082,9 @@ using TCM = lt::TCM;
         Entry{"inplace_string<" tag ">::front/back", "basic_inplace_string.hpp", 5, &STRE<N>::front_back},              \
         Entry{"inplace_string<" tag ">::pop_back", "basic_inplace_string.hpp", 5, &STRE<N>::pop_back},                  \
         Entry{"inplace_string<" tag ">::push_back", "basic_inplace_string.hpp", 5, &STRE<N>::push_back},                \
-        Entry{"inplace_string<" tag ">::operator[]", "basic_inplace_string.hpp", 5, &STRE<N>::index}
+        Entry{"inplace_string<" tag ">::operator[]", "basic_inplace_string.hpp", 5, &STRE<N>::index},                   \
+        Entry{"inplace_string<" tag ">::replace(pos>size)", "basic_inplace_string.hpp", 5, &STRE<N>::replace_pos},      \
+        Entry{"inplace_string<" tag ">::replace(pos2>str.size())", "basic_inplace_string.hpp", 5, &STRE<N>::replace_pos2}
 
 Entry const catalogue[] = {
     SV_ENTRIES(int, "int"),
@@ -1041,6 +1131,7 @@ Entry const catalogue[] = {
     Entry{"static_set<int,4>(first,last)", "static_set.hpp", 1, &static_set_ctor},
     Entry{"bitset<8>(string_view longer than the bitset)", "bitset.hpp", 2, &bitset_string_ctor},
     Entry{"static_vector<int,0> push_back/emplace_back/pop_back/insert", "static_vector.hpp", 1, &zero_capacity_vector},
+    Entry{"linalg::matrix_vector_product with mismatched extents", "blas2_matrix_vector_product.hpp", 4, &linalg_matvec},
     Entry{"linalg add/copy/swap_elements with mismatched extents", "blas1_add.hpp|blas1_copy.hpp|blas1_swap_elements.hpp", 4, &linalg_extents},
 #if defined(TETL_ENABLE_CONTRACT_CHECKS_SAFE)
     Entry{"array<int,4>::operator[] (SAFE)", "array.hpp", 2, &array_index},
